@@ -158,7 +158,9 @@ def streams(ctx):
                     allv |= set(vs)
                 cases.append({"req": vlib.line("http.fetch", "github", "x/y", str(1 + len(extra) // 3), "200", headers, body, *extra),
                               "tag": ("github", 200, "chain", npages, fail_at, st_fail), "ad": "github", "name": "x/y", "status": 200,
-                              "adv": ("paged", first, allv), "atags": {}})
+                              "adv": ("paged", first, allv), "atags": {},
+                              # each page is requested once, in the order the Link headers announce ("next", never "prev" / "first")
+                              "want_paths": ["/repos/x/y/releases"] + [f"/repos/x/releases?page={k + 2}" for k in range(len(extra) // 3)]})
 
     # the page bound: 21 chained pages of one release each
     wextra = []
@@ -206,6 +208,10 @@ def streams(ctx):
                                     "check": (lambda out, o=o: ("violation", "21 chained pages: " + o[:160]))})
                     continue
                 first, full = adv[1], adv[2]
+                if c.get("want_paths") and d.get("paths") != c["want_paths"]:
+                    der.append({"req": vlib.line("ml.settle"), "index": i, "history": [c["req"]],
+                                "check": (lambda out, got=d.get("paths"), want=c["want_paths"]: ("violation", f"the pages were requested as {got}, the Link headers announce {want}"))})
+                    continue
                 if isinstance(full, tuple):
                     st2 = full[1]
                     want = "notfound" if st2 == 404 else ("ratelimited" if st2 == 429 else "invalid")
